@@ -479,6 +479,15 @@ func genFpProgram(r *Rng, c *Ctx) fpProgram {
 			if _, isPtr := isPointerText(rq.Payload); isPtr {
 				rq.Payload = []byte("plain text, not a pointer\n")
 			}
+			if r.Chance(12) {
+				// far more than the pipes between Git and the filter hold (a raw file committed at a tracked path)
+				big := r.Bytes(Pick(r, []int{300000, 700000}))
+				if r.Bool() {
+					big = append(canonicalPointer(sha(big), int64(len(big))), big...) // begins like a pointer
+				}
+				rq.Payload = big
+				rq.PktSize = 65516
+			}
 			if len(rq.Payload) > 20000 && rq.PktSize < 100 {
 				rq.PktSize = 4096
 			}
@@ -600,14 +609,21 @@ func runFpProgram(c *Ctx, pi int, p fpProgram) (mlines, mimpl []string) {
 	}
 	died := false
 	exchange := func(rq fpReq) (fpAnswer, bool) {
-		if err := sess.send(rq); err != nil {
+		// Git writes the whole request before it reads a byte of the answer: a filter that answers before it
+		// has read everything blocks both sides for good — the deadline covers the sending as well
+		ch := make(chan fpAnswer, 1)
+		sendFailed := make(chan struct{}, 1)
+		go func() {
+			if err := sess.send(rq); err != nil {
+				sendFailed <- struct{}{}
+				return
+			}
+			ch <- sess.recv(rq)
+		}()
+		select {
+		case <-sendFailed:
 			died = true
 			return fpAnswer{Died: true}, false
-		}
-		type res struct{ a fpAnswer }
-		ch := make(chan fpAnswer, 1)
-		go func() { ch <- sess.recv(rq) }()
-		select {
 		case a := <-ch:
 			return a, true
 		case <-time.After(25 * time.Second):
